@@ -270,6 +270,10 @@ func (E *Engine) rangeNext(st *State, x *ssa.Next) []*State {
 	st.ghost["visited:"+itv.S] = sx("store", vis, k.S, "true")
 	v := E.mapGet(st.heap, it.m, k)
 	st.assume(E.loadFacts(st, v)...)
+	// keys and values held by a map are reachable objects: allocated, type invariants hold
+	st.assume(E.allocFacts(st, k)...)
+	E.assumeTypeInvs(st, k)
+	E.assumeTypeInvs(st, v)
 	_ = vt
 	st.regs[x] = &Val{T: x.Type(), F: []*Val{boolVal(ok), k, v}}
 	return nil
@@ -357,6 +361,10 @@ func (E *Engine) concCall(st *State, in ssa.Instruction, key string, cc *ssa.Cal
 		}
 		for _, cl := range lr.spec.Inv {
 			ev := E.selfEnv(st, lr, cl.Ctx)
+			st.assume(ev.evalBool(cl.Expr))
+		}
+		for _, cl := range E.stableClauses(lr.ts) {
+			ev := E.selfEnvRef(st, lr.ref, lr.T, cl.Ctx)
 			st.assume(ev.evalBool(cl.Expr))
 		}
 		// remember the snapshot for RUnlock's "unchanged" check
@@ -482,8 +490,9 @@ func (E *Engine) lockCheck(st *State, in ssa.Instruction, lv *LVal, write bool) 
 	}
 	sh := E.shape(lv.Root)
 	fname := sh.Fields[lv.Path[0].Field].Name
-	if cl, shared := ts.Shared[fname]; shared {
-		_ = cl
+	if _, shared := ts.Shared[fname]; shared && !write {
+		// shared fields may be read without the lock (publication by close / atomic);
+		// writes still need the lock when the field is also listed under `protects`
 		return
 	}
 	for _, ls := range ts.Locks {
@@ -786,8 +795,19 @@ func (E *Engine) sharedRead(st *State, lv *LVal) {
 	if !ok {
 		return
 	}
-	// objects allocated by this activation and not yet published are still private — but
-	// publication is not tracked, so only the syntactically obvious case is exempted: none.
+	// a field that is also protected by a lock this thread holds cannot change under its feet
+	for _, ls := range ts.Locks {
+		for _, pf := range ls.Protects {
+			if pf != fname {
+				continue
+			}
+			for id := range st.locks {
+				if strings.HasPrefix(id, ls.Field+"@") && foldBool(eq(st.ghost["lockobj:"+id], lv.Ref)) == "true" {
+					return
+				}
+			}
+		}
+	}
 	flv := &LVal{Kind: lvHeap, Ref: lv.Ref, Root: lv.Root, Path: lv.Path[:1]}
 	var facts []string
 	nv := E.freshVal(E.lvType(flv), "shared:"+fname, &facts)
@@ -806,6 +826,9 @@ func (E *Engine) sharedWrite(st *State, in ssa.Instruction, lv *LVal) {
 		return
 	}
 	for i, cl := range E.stableClauses(ts) {
+		if cl.Kind == "assumed-stable" {
+			continue
+		}
 		ev := E.selfEnvRef(st, lv.Ref, lv.Root, cl.Ctx)
 		ev.goal = true
 		E.oblige(st, "shared-stable", fmt.Sprintf("%s.%s.%d", E.site(in), fname, i), ev.evalBool(cl.Expr), "write to shared field "+fname+" keeps: "+cl.Text, E.pos(in), cl)
@@ -845,6 +868,9 @@ func (E *Engine) sharedStableCheckAll(st *State, in ssa.Instruction, site string
 				continue
 			}
 			if strings.HasPrefix(site, "close#") && !strings.Contains(cl.Text, "closed(") {
+				continue
+			}
+			if cl.Kind == "assumed-stable" {
 				continue
 			}
 			ev := E.selfEnvRef(st, v.S, p.Elem(), cl.Ctx)
@@ -913,6 +939,19 @@ func (E *Engine) heldProtected(st *State) [][2]string {
 			lv := &LVal{Kind: lvHeap, Ref: st.ghost["lockobj:"+id], Root: lr.T, Path: path}
 			for _, comp := range E.modComps(&modItem{lv: lv}) {
 				out = append(out, [2]string{comp, lv.Ref})
+			}
+			// the contents of a protected map are protected too
+			if ft := E.lvType(lv); ft != nil {
+				if _, isMap := types.Unalias(ft).Underlying().(*types.Map); isMap {
+					mv := E.load(st, st.heap, lv)
+					root, _, vt := E.mapInfo(ft)
+					out = append(out, [2]string{root + "!dom", mv.S}, [2]string{root + "!card", mv.S})
+					var ls []leafInfo
+					E.leafPaths(vt, "", &ls)
+					for _, l := range ls {
+						out = append(out, [2]string{root + "!val" + l.Path, mv.S})
+					}
+				}
 			}
 		}
 	}
